@@ -24,6 +24,8 @@ for p in props:
         })
     else:
         na.append({"property_id": pid, "reason": (m or {}).get('na_reason', meta['default_na'])})
+for e in meta['engines']:
+    e['serves_properties'] = [c['property_id'] for c in checks]
 man = {
     "version": 1,
     "setup_cmd": meta['setup_cmd'],
